@@ -1,6 +1,7 @@
 (* C19 — functools.partial objects get the signature Python actually enforces. *)
 From Sigtools.Model Require Import Base Bind Roles Algebra.
-From Sigtools.Proofs Require Import SmallModel Basics Deciders.
+From Sigtools.Model Require Import Universe.
+From Sigtools.Proofs Require Import SmallModel Basics Deciders SweepDefs SweepDefs2 Bounded2.
 
 Theorem C19_wf s n kw pobj r : sig_partial s n kw pobj = Ok r -> validate (params r) = true.
 Proof. exact (sig_partial_wf s n kw pobj r). Qed.
@@ -26,3 +27,15 @@ Theorem C19_none_decider_complete s n names0 :
   forall c, accepts s (partial_call n names0 c) = false.
 Proof. exact (partial_none_cex_complete s n names0). Qed.
 Print Assumptions C19_none_decider_complete.
+
+(* Bounded (bound in the statement): functools.partial over U(2,{a,b}), up to 4
+   bound positionals, every duplicate-free tuple of bound keyword names, ALL calls *)
+Theorem C19_partial_exact_U2 s n names0 :
+  In s U2ab -> In n counts -> In names0 name_tuples -> names_avoid_po s names0 = true ->
+  match sig_partial (mk s) n (map (fun k => (k, 5)) names0) 200 with
+  | Ok r => forall c, noncolliding c (params r) [s] = true ->
+                      accepts (params r) c = accepts s (partial_call n names0 c)
+  | Err e => e = ValueErr /\ forall c, accepts s (partial_call n names0 c) = false
+  end.
+Proof. exact (partial_exact_U2 s n names0). Qed.
+Print Assumptions C19_partial_exact_U2.
